@@ -69,7 +69,7 @@ def build_history(case, fid_placeholder=None):
     ops = b''
     n = 0
     nf = 0
-    if case.get('ppm', 0) > 0:
+    if case.get('ppm', 0) != 0:        # < 0: hinted font (shape_case.h make_any_font)
         ops += bytes([3]) + struct.pack('<f', case['ppm']); n += 1; nf = 1
     ops += bytes([1]) + struct.pack('<hhB', 0 if nf else -1, -1, 1) + shape_params(tb, enc=case.get('enc', 4), dir=case['dir'], ppm=0.0); n += 1
     tags = ['seg']
@@ -194,7 +194,7 @@ def worker(ctx):
                 if txt:
                     txt.insert(data.draw(st.integers(0, len(txt))), 0x20)
             base['text'] = txt
-            base['ppm'] = data.draw(st.sampled_from([0.0, 0.0, 20.0, 1000.0]))
+            base['ppm'] = data.draw(st.sampled_from([0.0, 0.0, 20.0, 1000.0, -15.0]))
             bsel = data.draw(st.lists(st.integers(0, 999), max_size=4))
             jsel = data.draw(st.lists(st.tuples(st.integers(0, 999), st.integers(0, 6), st.integers(0, 3), st.booleans(), st.integers(0, 2), st.integers(0, 999), st.integers(0, 999)), max_size=8))
             opts = data.draw(st.sampled_from([0, 2, 6]))
@@ -248,7 +248,7 @@ def worker(ctx):
             nt = (nlines >= 2 and any(j['line'] > 0 for j in justs)) or (mismatch and bool(justs))
             rec.case(nontrivial_sig=json.dumps(case, sort_keys=True) if nt else None,
                      sample=dict(font=case.get('font', 'synthesised'), text=case['text'], dir=case['dir'], breaks=breaks, justifies=justs[:4]) if nt else None,
-                     multi_line=nlines >= 2, justify_calls=len(justs), dir_mismatch=mismatch, dir_ge2=case['dir'] >= 2, with_font=case['ppm'] > 0, sub_range=any(j['first'] >= 0 for j in justs),
+                     multi_line=nlines >= 2, justify_calls=len(justs), dir_mismatch=mismatch, dir_ge2=case['dir'] >= 2, with_font=case['ppm'] > 0, with_hinted_font=case['ppm'] < 0, sub_range=any(j['first'] >= 0 for j in justs),
                      font_has_just_pass=bool(info and info['justpass']), font_line_end_flag=bool(info and info['flags'] & 1), negative_width=any(j['width'] < 0 for j in justs))
         return t
 
